@@ -661,7 +661,7 @@ func genWireToken(c *choice.Ctx, p int, variant int) *wireToken {
 		t.st = wOpen
 		t.open = append(t.open, "bstr-map-key")
 	}
-	ms := c.Choose("map-shape", 16)
+	ms := c.Choose("map-shape", 18)
 	if ms != 0 {
 		t.devs = append(t.devs, fmt.Sprintf("map-shape=%d", ms))
 	}
@@ -669,6 +669,8 @@ func genWireToken(c *choice.Ctx, p int, variant int) *wireToken {
 	case 1:
 		t.tree.Indef = true
 		t.note(0, wcls{label: "indef-map", st: wBad})
+	case 16, 17:
+		t.tree.HeadW = map[int]int{16: 4, 17: 8}[ms] // the entry count in a 4- / 8-byte argument: same content
 	case 2:
 		t.tree.HeadW = 2 // non-minimal map head: same content
 	case 3: // reverse key order
